@@ -58,6 +58,14 @@ func Install() *Ctl {
 	return c
 }
 
+// Reinstall makes an existing controller current again (after an Uninstall used to run
+// set-up code without scheduling points).
+func Reinstall(c *Ctl) {
+	curMu.Lock()
+	cur = c
+	curMu.Unlock()
+}
+
 func Uninstall() {
 	curMu.Lock()
 	cur = nil
